@@ -3,7 +3,7 @@
 # (tools/seed_check4.sh: evidence and replays redirected, /repo and /verif/evidence never touched), P at a time.
 # Results: /verif/seeded/RESULTS.tsv (one line per change: exit code, number of VIOLATION lines, the first violation reported)
 P=${1:-3}
-cd /verif
+V=${VERIF_HOME:-/verif}; cd $V
 ls -d seeded/C*-*m* | while read d; do s=$(basename $d); echo "$s ${s%%-*}"; done | xargs -P $P -L 1 sh tools/seed_check4.sh > /tmp/seed/matrix.out 2>&1
 OUT=/tmp/seed/RESULTS.new; : > $OUT
 for d in seeded/C*-*m*; do
